@@ -14,6 +14,6 @@ CONSTANTS
   McKinds = {}
 INIT TInit
 NEXT TNext
-INVARIANTS NoPanic
+INVARIANTS ProjectionSound NoPanic
 POSTCONDITION Post
 CHECK_DEADLOCK FALSE
